@@ -60,6 +60,11 @@ var checks = map[string]checkSpec{
 		Quick:     35 * time.Second, Thorough: 10 * time.Minute, Level: "exploration",
 		Rule: "Random static cluster states (1-4 brokers, topics/partitions spread over leaders, log start offsets from 0 to beyond 2^33, record timestamps, committed offsets per group) queried through Conn (ReadOffsets, ReadOffset(time), Seek in every whence mode with and without SeekDontCheck, ReadPartitions) and Client (ListOffsets spanning many topics/partitions/leaders with mixed first/last/time requests, OffsetFetch, ConsumerOffsets, OffsetCommit, Metadata) by 1-3 goroutines, with per-partition error codes and an unreachable leader for a subset; every returned value is compared with the model and an injected failure must appear on its partition only.",
 	},
+	"C18": {
+		Scenarios: []scnSpec{{Name: "sasl", Share: 1}},
+		Quick:     30 * time.Second, Thorough: 8 * time.Minute, Level: "exploration",
+		Rule: "PLAIN, SCRAM-SHA-256 and SCRAM-SHA-512 with user names and passwords that need escaping or SASLprep, handshake v0 (raw tokens) and v1 (SaslAuthenticate frames), through Dialer->Conn and through a Transport shared by several goroutines; healthy exchanges and every failure placement (wrong password, unknown user, mechanism not enabled, error code in SaslAuthenticate, malformed server-first / server-final message, connection closed after the handshake or mid-exchange). The broker model reports any non-authentication request that arrives before its hand-written reference server (RFC 4616 / RFC 5802) accepted the exchange; dialling must succeed exactly when that server accepted, and a failed connection must be closed.",
+	},
 	"C07": {
 		Scenarios: []scnSpec{{Name: "writer", Params: "focus=order", Share: 1}},
 		Quick:     35 * time.Second, Thorough: 10 * time.Minute, Level: "exploration",
